@@ -18,7 +18,9 @@
 package client
 
 import (
+	"bytes"
 	"context"
+	"crypto/sha256"
 	"encoding/base64"
 	"fmt"
 	"net/http"
@@ -27,6 +29,7 @@ import (
 	ct "github.com/google/certificate-transparency-go"
 	"github.com/google/certificate-transparency-go/jsonclient"
 	"github.com/google/certificate-transparency-go/tls"
+	"github.com/google/certificate-transparency-go/x509"
 )
 
 // LogClient represents a client for a given CT Log instance
@@ -96,6 +99,23 @@ func (c *LogClient) addChainWithRetry(ctx context.Context, ctype ct.LogEntryType
 
 	var logID ct.LogID
 	copy(logID.KeyID[:], resp.ID)
+	if c.Verifier != nil {
+		// The signature does not cover the log ID (RFC 6962 s3.2), so it has to be the hash of the key
+		// we hold; a response that omits it gets the ID of that key.
+		keyDER, err := x509.MarshalPKIXPublicKey(c.Verifier.PubKey)
+		if err != nil {
+			return nil, RspError{Err: fmt.Errorf("failed to marshal log public key: %v", err), StatusCode: httpRsp.StatusCode, Body: body}
+		}
+		keyID := sha256.Sum256(keyDER)
+		if len(resp.ID) > 0 && !bytes.Equal(resp.ID, keyID[:]) {
+			return nil, RspError{
+				Err:        fmt.Errorf("log ID in response (%x) is not the hash of the log's public key (%x)", resp.ID, keyID),
+				StatusCode: httpRsp.StatusCode,
+				Body:       body,
+			}
+		}
+		logID.KeyID = keyID
+	}
 	sct := &ct.SignedCertificateTimestamp{
 		SCTVersion: resp.SCTVersion,
 		LogID:      logID,
